@@ -644,3 +644,80 @@ pub fn check_class_sweep<O: Op>(op: &O, x: &[BigUint], seed: u64, max_classes: u
         .with(format!("coverage:{}%", if st.classes == 0 { 100 } else { 100 * st.swept / st.classes / 10 * 10 }));
     Ok((st, v))
 }
+
+// ---------------------------------------------------------------------------
+// Running a generic function on one named op of a catalogue
+
+/// A function generic in the op type (closures cannot be).
+pub trait OpFn {
+    fn call<O: Op>(&mut self, op: &O, inputs: &[Vec<BigUint>]) -> CaseResult;
+}
+
+/// Collects (name, representative inputs) of every op a catalogue visits.
+#[derive(Default)]
+pub struct NameCollector(pub Vec<(String, Vec<Vec<BigUint>>)>);
+
+impl OpVisitor for NameCollector {
+    fn visit<O: Op>(&mut self, op: &O, inputs: &[Vec<BigUint>]) {
+        self.0.push((op.name(), inputs.to_vec()));
+    }
+}
+
+/// Applies `f` to the op called `name` when the catalogue visits it.
+pub struct ByName<'a, G: OpFn> {
+    pub name: &'a str,
+    pub f: G,
+    pub result: Option<CaseResult>,
+}
+
+impl<G: OpFn> OpVisitor for ByName<'_, G> {
+    fn visit<O: Op>(&mut self, op: &O, inputs: &[Vec<BigUint>]) {
+        if self.result.is_none() && op.name() == self.name {
+            self.result = Some(self.f.call(op, inputs));
+        }
+    }
+}
+
+/// The class sweep on the first representative input of an op.
+pub struct SweepFn {
+    pub seed: u64,
+    pub max_classes: usize,
+    pub per_run: usize,
+}
+
+impl OpFn for SweepFn {
+    fn call<O: Op>(&mut self, op: &O, inputs: &[Vec<BigUint>]) -> CaseResult {
+        let Some(x) = inputs.iter().find(|x| op.reference(x).is_some()) else {
+            return Ok(Verdict::trivial("no-in-domain-input"));
+        };
+        let (st, v) = check_class_sweep(op, x, self.seed, self.max_classes, self.per_run)?;
+        Ok(v.with(format!("swept-classes:{}", match st.swept { 0 => "0", 1..=9 => "1-9", 10..=99 => "10-99", _ => "100+" }))
+            .with(format!("confirmed-singly:{}", match st.confirmed { 0 => "0", 1..=9 => "1-9", _ => "10+" })))
+    }
+}
+
+/// Sub-check shared by the catalogue checks: the class sweep over (a rotating part of) the
+/// ops of a catalogue. `$visit` is the catalogue's generic `visit_ops`.
+#[macro_export]
+macro_rules! catalogue_sweep {
+    ($p:expr, $sub:expr, $visit:path, $every:expr, $max_classes:expr, $threads:expr) => {{
+        let p = $p;
+        let (quick, seed) = (p.quick(), p.seed);
+        let mut c = $crate::e2::NameCollector::default();
+        $visit(&mut c, quick, seed);
+        let every: u64 = $every;
+        let names: Vec<String> = c.0.into_iter().map(|(n, _)| n).filter(|n| every <= 1 || (vpcore::digest(n) ^ seed) % every == 0).collect();
+        p.enumerate(
+            $sub,
+            "class-representative fault sweep of catalogue operations: the assignments of one honest run are grouped by (region shape, column, offset in the region); one occurrence per class is changed by +1 (many classes per synthesis, far apart) and must be detected by a gate / lookup within 12 rows or by a copy failure at the cell; undetected ones are confirmed singly with full verification and must not expose public values that contradict the reference; non-trivial = at least one fault detected",
+            names,
+            $threads,
+            false,
+            move |name: &String| -> vpcore::CaseResult {
+                let mut r = $crate::e2::ByName { name, f: $crate::e2::SweepFn { seed: vpcore::digest(name) ^ seed, max_classes: $max_classes, per_run: 24 }, result: None };
+                $visit(&mut r, quick, seed);
+                r.result.unwrap_or_else(|| Err(vpcore::Failure::new("harness:op-not-found-in-catalogue", name.clone())))
+            },
+        );
+    }};
+}
